@@ -194,6 +194,10 @@ pub struct Case {
     /// entry-point sweep case (see sweep.rs); the other fields are ignored
     #[serde(default)]
     pub sweep: Option<crate::sweep::SweepCase>,
+    /// who is named as successor by a role transfer: 0 an uninvolved account, 1 the called contract itself
+    /// (the way to renounce a role), 2 another contract, 3 the current holder (a transfer to oneself)
+    #[serde(default)]
+    pub successor: u8,
 }
 
 #[derive(Clone)]
@@ -272,7 +276,7 @@ fn prepare(s: &Sys, ep: Ep) {
 /// the studied call; `alt` selects the second argument list
 fn call(s: &Sys, ep: Ep, alt: bool) -> bool {
     let env = &s.env;
-    let who = if alt { &s.pool[EXTRA_B] } else { &s.pool[EXTRA_A] };
+    let who = if alt { &s.pool[EXTRA_B] } else { &s.named };
     let chain = sstr(env, if alt { "chain-b" } else { "chain-a" });
     let amount: i128 = if alt { 2 } else { 1 };
     let hash = if alt { env.deployer().upload_contract_wasm(DUMMY_WASM) } else { BytesN::from_array(env, &empty_wasm_hash()) };
@@ -327,7 +331,7 @@ fn call(s: &Sys, ep: Ep, alt: bool) -> bool {
 /// effect of the (first-variant) call is visible
 fn effect_visible(s: &Sys, ep: Ep) -> Result<(), String> {
     let env = &s.env;
-    let who = &s.pool[EXTRA_A];
+    let who = &s.named;
     let t = soroban_sdk::token::TokenClient::new(env, &s.asset);
     let good = match ep {
         Ep::GwTransferOwnership => s.gw.owner() == *who,
@@ -414,6 +418,22 @@ fn build(case: &Case) -> (Sys<'static>, RoleModel) {
             let _ = call(&s, case.ep, false);
         }
     }
+    let mut s = s;
+    if let Some(role) = case.ep.is_transfer() {
+        let own = match role {
+            Role::GwOwner | Role::GwOperator => s.gw.address.clone(),
+            Role::GasOwner | Role::GasCollector => s.gas.address.clone(),
+            Role::OpsOwner => s.ops.address.clone(),
+            Role::ItsOwner => s.its.address.clone(),
+            Role::TokenOwner => s.token.address.clone(),
+        };
+        match case.successor % 4 {
+            1 => s.named = own,
+            2 => s.named = s.asset.clone(),
+            3 => s.named = s.pool[m.holder[&role]].clone(),
+            _ => {}
+        }
+    }
     (s, m)
 }
 
@@ -423,7 +443,7 @@ impl Property for C06 {
         "C06"
     }
     fn rule(&self) -> &'static str {
-        "every case = (role-transfer history over the 6 transferable roles of the 5 role-bearing contracts, one of 29 administrative entry points, one of 7 principal classes: current holder, former holder, holder of another role, beneficiary named in the arguments, stranger, nobody, holder-authorised-other-arguments). The full 29x7 matrix with an empty history is enumerated in every run (fixed cases), once in the ordinary state and once with the contract's migration window open (upgraded, not yet migrated); for the idempotent entry points (role transfers, add/remove minter, upgrade) also the variant in which the same change was already applied once; proptest adds histories of 1-5 transfers (incl. to self, to the other role's holder, and back). Engine: the authorisation trees the call needs are recorded in a twin world with all auths mocked, then replayed in a fresh identical world in which exactly one principal signs the tree recorded for the role holder. Oracle: role model: success iff that principal is the current holder (and signed these exact arguments); refusals must leave the ledger snapshot identical; after an accepted transfer the role query names exactly the successor. non-trivial = principal is not simply the initial holder (principal class != Holder, or history non-empty); distinct by Debug hash. A share of the random cases is an entry-point sweep (the exported functions of all shipped contracts are read from the sources of the tree under test; entry points absent from the pinned inventory get 300 deterministic cases each and half of the random sweep cases): one entry point is called on a fully deployed system (gateway, gas service, operators, token service with a deployed token owned by the service, stand-alone token, upgrader, example app; some contracts optionally upgraded-but-not-migrated) with arguments from pools of principals / contracts / tokens / names / ids / boundary amounts, every require_auth satisfied by the host's mock and recorded; cases where the mock let a contract sign are discarded; oracle: a change of any contract's owner, of the gateway operator, of the operator set, of the trusted chains or of a token's minters needs the current holder of the governing role among the recorded signers (or to be the called contract); non-trivial = the call succeeded"
+        "every case = (role-transfer history over the 6 transferable roles of the 5 role-bearing contracts, one of 29 administrative entry points, for role transfers the named successor being an uninvolved account / the called contract itself / another contract / the current holder, one of 7 principal classes: current holder, former holder, holder of another role, beneficiary named in the arguments, stranger, nobody, holder-authorised-other-arguments). The full 29x7 matrix with an empty history is enumerated in every run (fixed cases), once in the ordinary state and once with the contract's migration window open (upgraded, not yet migrated); for the idempotent entry points (role transfers, add/remove minter, upgrade) also the variant in which the same change was already applied once; proptest adds histories of 1-5 transfers (incl. to self, to the other role's holder, and back). Engine: the authorisation trees the call needs are recorded in a twin world with all auths mocked, then replayed in a fresh identical world in which exactly one principal signs the tree recorded for the role holder. Oracle: role model: success iff that principal is the current holder (and signed these exact arguments); refusals must leave the ledger snapshot identical; after an accepted transfer the role query names exactly the successor. non-trivial = principal is not simply the initial holder (principal class != Holder, or history non-empty); distinct by Debug hash. A share of the random cases is an entry-point sweep (the exported functions of all shipped contracts are read from the sources of the tree under test; entry points absent from the pinned inventory get 300 deterministic cases each and half of the random sweep cases): one entry point is called on a fully deployed system (gateway, gas service, operators, token service with a deployed token owned by the service, stand-alone token, upgrader, example app; some contracts optionally upgraded-but-not-migrated) with arguments from pools of principals / contracts / tokens / names / ids / boundary amounts, every require_auth satisfied by the host's mock and recorded; cases where the mock let a contract sign are discarded; oracle: a change of any contract's owner, of the gateway operator, of the operator set, of the trusted chains or of a token's minters needs the current holder of the governing role among the recorded signers (or to be the called contract); non-trivial = the call succeeded"
     }
     fn fixed_is_exhaustive(&self) -> Option<&'static str> {
         Some("entry-point x principal matrix (29 x 7) with empty role history enumerated completely; histories sampled")
@@ -438,8 +458,9 @@ impl Property for C06 {
             prop::sample::select(PRINCIPALS.to_vec()),
             prop_oneof![3 => Just(false), 1 => Just(true)],
             prop_oneof![3 => Just(false), 1 => Just(true)],
+            prop_oneof![5 => Just(0u8), 1 => Just(1u8), 1 => Just(2u8), 1 => Just(3u8)],
         )
-            .prop_map(|(mut history, ep, principal, pre_applied, window_open)| {
+            .prop_map(|(mut history, ep, principal, pre_applied, window_open, successor)| {
                 // bias the history toward the studied role
                 let r = ROLES.iter().position(|r| *r == ep.role()).unwrap() as u8;
                 for (i, x) in history.iter_mut().enumerate() {
@@ -447,22 +468,27 @@ impl Property for C06 {
                         x.role = r;
                     }
                 }
-                Case { history, ep, principal, pre_applied, window_open, sweep: None }
+                Case { history, ep, principal, pre_applied, window_open, sweep: None, successor }
             })
             .boxed();
         match crate::sweep::strategy(crate::sweep::Rule::Roles) {
-            Some(sw) => prop_oneof![2 => direct, 1 => sw.prop_map(|s| Case { history: vec![], ep: EPS[0], principal: PRINCIPALS[0], pre_applied: false, window_open: false, sweep: Some(s) })].boxed(),
+            Some(sw) => prop_oneof![2 => direct, 1 => sw.prop_map(|s| Case { history: vec![], ep: EPS[0], principal: PRINCIPALS[0], pre_applied: false, window_open: false, sweep: Some(s), successor: 0 })].boxed(),
             None => direct,
         }
     }
     fn fixed_cases(&self, _tier: Tier) -> Vec<Case> {
-        let mut v: Vec<Case> = crate::sweep::fixed_cases(300).into_iter().map(|s| Case { history: vec![], ep: EPS[0], principal: PRINCIPALS[0], pre_applied: false, window_open: false, sweep: Some(s) }).collect();
+        let mut v: Vec<Case> = crate::sweep::fixed_cases(300).into_iter().map(|s| Case { history: vec![], ep: EPS[0], principal: PRINCIPALS[0], pre_applied: false, window_open: false, sweep: Some(s), successor: 0 }).collect();
         for ep in EPS {
             for p in PRINCIPALS {
-                v.push(Case { history: vec![], ep, principal: p, pre_applied: false, window_open: false, sweep: None });
-                v.push(Case { history: vec![], ep, principal: p, pre_applied: false, window_open: true, sweep: None });
+                v.push(Case { history: vec![], ep, principal: p, pre_applied: false, window_open: false, sweep: None, successor: 0 });
+                v.push(Case { history: vec![], ep, principal: p, pre_applied: false, window_open: true, sweep: None, successor: 0 });
                 if ep.idempotent() {
-                    v.push(Case { history: vec![], ep, principal: p, pre_applied: true, window_open: false, sweep: None });
+                    v.push(Case { history: vec![], ep, principal: p, pre_applied: true, window_open: false, sweep: None, successor: 0 });
+                }
+                if ep.is_transfer().is_some() {
+                    for successor in 1..4u8 {
+                        v.push(Case { history: vec![], ep, principal: p, pre_applied: false, window_open: false, sweep: None, successor });
+                    }
                 }
             }
         }
@@ -475,9 +501,19 @@ impl Property for C06 {
         }
         let ep = case.ep;
         let role = ep.role();
+        if ep.is_transfer().is_some() && case.successor % 4 != 0 {
+            if matches!(case.successor % 4, 1 | 2) && case.principal == Principal::Beneficiary {
+                // a contract cannot sign
+                return Ok(());
+            }
+            cx.label(["", "successor_is_the_called_contract_itself", "successor_is_another_contract", "successor_is_the_current_holder"][case.successor as usize % 4]);
+            cx.nontrivial();
+        }
         let other_call = case.principal == Principal::HolderOtherCall && ep.has_variant();
         // ---- twin world: record what the call needs
         let (ws, wm) = build(case);
+        // the "other arguments" name pool[EXTRA_B]: if that is the studied successor too, it is the same call
+        let other_call = other_call && !(ep.is_transfer().is_some() && ws.named == ws.pool[EXTRA_B]);
         prepare(&ws, ep);
         let holder_idx = wm.holder[&role];
         let holder_rec = ws.pool[holder_idx].clone();
@@ -505,7 +541,7 @@ impl Property for C06 {
                 None => s.pool[STRANGER].clone(),
             }),
             Principal::OtherRole => Some(s.pool[m.holder[&role.other()]].clone()),
-            Principal::Beneficiary => Some(s.pool[EXTRA_A].clone()),
+            Principal::Beneficiary => Some(s.named.clone()),
             Principal::Stranger => Some(s.pool[STRANGER].clone()),
             Principal::Nobody => None,
         };
@@ -545,7 +581,7 @@ impl Property for C06 {
             ensure_p!(ok, "{:?} refused although the current {:?} holder authorised exactly this call (history {:?})", ep, role, case.history);
             effect_visible(&s, ep)?;
             if let Some(r) = ep.is_transfer() {
-                ensure_p!(query_role(&s, r) == s.pool[EXTRA_A], "after an accepted transfer the role does not belong to exactly the named successor");
+                ensure_p!(query_role(&s, r) == s.named, "after an accepted transfer the role does not belong to exactly the named successor");
             }
         } else {
             cx.count("must_fail");
